@@ -657,6 +657,12 @@ def report(ctx, source, config, key, what, target_line=None, minimise=True, shru
     ctx.histo("violations_by_config", config)
     if shrunk_keys is None:
         shrunk_keys = {}
+    seen = shrunk_keys.get(("seen", key), 0)
+    shrunk_keys[("seen", key)] = seen + 1
+    if seen >= 3 and key in ctx.violations:
+        # the fourth and later occurrences of a mechanism in this shard are only counted (a witness is kept already)
+        ctx.violation_counts[key] = ctx.violation_counts.get(key, 0) + 1
+        return
     if minimise and shrunk_keys.get(key, 0) < 1:
         shrunk_keys[key] = shrunk_keys.get(key, 0) + 1
         small, used = shrink(source, config, key, target_line)
@@ -687,7 +693,7 @@ def program_phase(ctx) -> None:
     for name, src in fuzzgen.sweep_programs(ctx.mine):
         ctx.count("sweep_programs")
         check_program(ctx, src, [], "sweep:" + name, shrunk_keys=shrunk)
-    n = ctx.pick(400, 8000)
+    n = ctx.pick(400, 2500)
     n_fuzz = int(n * 0.8)
     for i in range(n):
         if i < n_fuzz:
